@@ -1,6 +1,6 @@
 """econftool edit / revert (ToolEdit.tla): beyond the listed properties, part of the C19 check.
 
-   M  MC_ToolEdit: every tree made of a subset of five files x every sequence of up to MaxSteps commands
+   M  MC_ToolEdit: every tree made of a subset of six files x every sequence of up to MaxSteps commands
       (edit as drop-in / --full with six editors, revert); invariants = what the commands promise.
    F  every reached state is exported (initial files, commands, expected set of files, expected `show`) and replayed
       against the real tool under $ECONFTOOL_ROOT with $EDITOR scripts that do what the model's editors do.
@@ -25,7 +25,7 @@ def safe_names():
 
 def cfg_text(maxsteps, export, invs=True):
     inv = "".join("INVARIANT %s\n" % x for x in ("EditTouchesOnlyTarget", "EditFailsIff", "KeepKeepsConfiguration", "AppendedKeyIsShown", "CommentedLineIsInert",
-                                                 "EditedTreeReadable", "RevertRemovesDropins", "RevertedShow")) if invs else ""
+                                                 "EditedTreeReadable", "RevertRemovesDropins", "RevertedShow", "RevertUnmasks", "MaskedVendorDropinIsInert")) if invs else ""
     return "SPECIFICATION Spec\nCHECK_DEADLOCK FALSE\n%sCONSTRAINT ExportCase\nCONSTANTS\n MaxSteps = %d\n Export = %s\n" % (inv, maxsteps, "TRUE" if export else "FALSE")
 
 
@@ -177,11 +177,11 @@ def check_edit(tool, tier, rnd, base, verdict):
                                   ", ".join(core.uncodes(f["path"]) for f in x["init"]),
                                   [(a["cmd"], a["mode"], a["ed"]["kind"]) for a in x["acts"]], detail))
     return {"states": r.distinct, "transitions": r.generated, "replayed": len(recs), "agree": ok,
-            "rule": "MC_ToolEdit (ToolEdit.tla over the concrete file system of Econf.tla): every subset of five files (vendor main with a comment, "
-                    "vendor drop-in, local main, local drop-in, malformed local drop-in) x every sequence of up to %d commands among edit {drop-in, --full} x editor "
+            "rule": "MC_ToolEdit (ToolEdit.tla over the concrete file system of Econf.tla): every subset of six files (vendor main with a comment, "
+                    "vendor drop-in, local main, local drop-in, malformed local drop-in, a vendor drop-in with the local drop-in's name) x every sequence of up to %d commands among edit {drop-in, --full} x editor "
                     "{keep, append a key, append a two-line key, replace everything, append a malformed line, append a commented-out assignment} and revert; invariants: a failed edit changes nothing, "
                     "a successful one exactly its target; it fails iff the tree is unreadable, the edited text malformed or empty (Dev_EditToNothingFails); keeping the text keeps the configuration; "
-                    "an appended key is shown; an appended commented-out assignment is inert (same configuration, the commented key absent); the edited tree is readable; revert leaves nothing below the drop-in directory and everything else alone; the "
+                    "an appended key is shown; an appended commented-out assignment is inert (same configuration, the commented key absent); the edited tree is readable; revert leaves nothing below the drop-in directory and everything else alone; a vendor drop-in masked by a local file of the same name decides nothing and is read again after revert; the "
                     "non-property 'a replaced value is shown' is refuted (vacuity control). %d exported states replayed against the built econftool (--yes, "
                     "$EDITOR = shell scripts doing what the model's editors do, $ECONFTOOL_ROOT = scratch root, every second one with blanks, delimiter, comment, "
                     "bracket and format characters in its name; configuration names %s; with the default characters, under the renaming --delimiters=: --comment=';' of files and editor texts, and with the two-character sets ':=' / '#;'): exit status of every command, the set of files afterwards and the "
